@@ -1070,7 +1070,84 @@ fn drive_pc(a: &Args, tr: &mut Tracer, per_subject: &mut serde_json::Map<String,
         }
         per_subject.insert(name.clone(), c.json());
     }
-    let _ = std::fs::remove_dir_all(&dir);
+}
+
+/// One LruPageCache shared by three reader threads (no rewrites): whatever the interleaving, every read must
+/// return the bytes of its own (file, offset, length) - a page loaded or evicted by another thread at the same
+/// moment must not show through.  The reads are independent of each other, so they are logged in completion order.
+fn drive_pc_mt(a: &Args, tr: &mut Tracer, per_subject: &mut serde_json::Map<String, Value>) {
+    let name = "pc:lru_mt";
+    if !a.wants(name) {
+        return;
+    }
+    let rng0 = Rng::new(a.seed);
+    let dir = tmp_dir();
+    let (runs, per_thread) = if a.thorough() { (12, 40) } else { (3, 25) };
+    let p = PAGE_SIZE as u64;
+    let mut c = Counts::default();
+    for run in 0..runs {
+        let cap_pages = 1 + run % 2;
+        let pc = match LruPageCache::new(PageCacheConfig::balanced().with_capacity(cap_pages * PAGE_SIZE)) {
+            Ok(x) => Arc::new(x),
+            Err(_) => {
+                c.not_constructed += 1;
+                continue;
+            }
+        };
+        tr.reset("pagecache", name, json!({"fam":"pc","variant":"lru_mt","cap_pages":cap_pages,"page":PAGE_SIZE,"seed":a.seed,"threads":3}));
+        c.runs += 1;
+        let mut files: Vec<(u32, u64, PathBuf)> = vec![];
+        for (fi, size) in [4 * p + 7, 3 * p].iter().enumerate() {
+            let path = dir.join(format!("mt-{run}-{fi}.bin"));
+            let data: Vec<u8> = (0..*size).map(|i| pattern(fi as u64 + 1, i)).collect();
+            std::fs::write(&path, &data).expect("write file");
+            match pc.open_file(&path) {
+                Ok(fid) => {
+                    tr.ev(json!({"op":"file","f":files.len() + 1,"fid":fid,"size":size,"gen":fi + 1,"ok":true,"virtual":false}));
+                    files.push((fid, *size, path));
+                }
+                Err(_) => tr.ev(json!({"op":"file","f":0,"fid":0,"size":size,"gen":fi + 1,"ok":false,"virtual":false})),
+            }
+            c.events += 1;
+        }
+        if files.len() < 2 {
+            continue;
+        }
+        let out: Arc<Mutex<Vec<Value>>> = Arc::new(Mutex::new(vec![]));
+        let meta: Vec<(u32, u64)> = files.iter().map(|f| (f.0, f.1)).collect();
+        std::thread::scope(|sc| {
+            for t in 0..3usize {
+                let (pc, out, meta) = (Arc::clone(&pc), Arc::clone(&out), meta.clone());
+                let mut rng = rng0.derive(&format!("{name}/{run}/{t}"));
+                sc.spawn(move || {
+                    for _ in 0..per_thread {
+                        let fi = rng.below(2) as usize;
+                        let (fid, size) = meta[fi];
+                        let rnd = rng.below(size);
+                        let off = *rng.pick(&[0, p - 3, p, 2 * p - 1, 3 * p - 2, size - 4, rnd]);
+                        let len = *rng.pick(&[1usize, 6, 40, 300]);
+                        let e = match guard(|| pc.read(fid, off, len).map(|b| b.data().to_vec())) {
+                            Ok(Ok(d)) => json!({"op":"read","api":"mt","t":t,"f":fi + 1,"off":off,"len":len,"ok":true,"r":bytes_json(&d)}),
+                            Ok(Err(_)) => json!({"op":"read","api":"mt","t":t,"f":fi + 1,"off":off,"len":len,"ok":false,"r":[]}),
+                            Err(m) => json!({"op":"panic","in":"pc_mt","msg":m.chars().take(120).collect::<String>()}),
+                        };
+                        out.lock().unwrap_or_else(|e| e.into_inner()).push(e);
+                    }
+                });
+            }
+        });
+        for e in out.lock().unwrap_or_else(|e| e.into_inner()).drain(..) {
+            if e["ok"] == json!(true) {
+                c.successes += 1;
+            }
+            tr.ev(e);
+            c.events += 1;
+        }
+        for f in &files {
+            let _ = std::fs::remove_file(&f.2);
+        }
+    }
+    per_subject.insert(name.to_string(), c.json());
 }
 
 // ================================================================ cached blob store
@@ -1316,9 +1393,9 @@ fn drive_buf(a: &Args, tr: &mut Tracer, per_subject: &mut serde_json::Map<String
             });
             match r {
                 Ok(e) => {
-                    // a buffer that went through reserve() is observed once and then discarded: on the pinned tree
-                    // its data() may read freed memory (C17-KF8); nothing more is asked of it
-                    let drop_it = if e["op"] == "buf_reserve" { e["b"].as_u64() } else { None };
+                    // C17-KF8 is fixed (b1d4d57): a buffer that went through reserve() stays live and keeps being
+                    // observed (its data() must follow the moved storage)
+                    let drop_it: Option<u64> = None;
                     tr.ev(e);
                     c.events += 1;
                     c.successes += 1;
@@ -1532,6 +1609,8 @@ fn drive(a: &Args) {
     let mut t2 = Tracer::new(&a.out, "pc");
     t2.max_events = 700;
     drive_pc(a, &mut t2, &mut per_subject);
+    drive_pc_mt(a, &mut t2, &mut per_subject);
+    let _ = std::fs::remove_dir_all(tmp_dir());
     drive_cs(a, &mut t2, &mut per_subject);
     drive_buf(a, &mut t2, &mut per_subject);
     t2.close();
@@ -1777,7 +1856,7 @@ fn main() {
         "drive" => drive(&a),
         "replay" => replay(&a),
         "subjects" => {
-            for s in lru_subjects().into_iter().chain(fsa_subjects()).chain(pc_subjects()).chain(cs_subjects()).chain(lin_subjects()) {
+            for s in lru_subjects().into_iter().chain(fsa_subjects()).chain(pc_subjects()).chain(cs_subjects()).chain(lin_subjects()).chain(["pc:lru_mt".to_string(), "buf:cache_buffer".to_string()]) {
                 println!("{s}");
             }
         }
